@@ -185,6 +185,41 @@ theorem merge_join_err_any_position :
     (Plan.mjoin none (mergeJoinOp 2 3 2 [3]) 20 (src3 none) (src2 none)).run =
       .ok [⟨2, 0, 3, true⟩] := ⟨rfl, rfl, rfl, rfl⟩
 
+/-! ## the tail of a writer: the final flush is a step whose error must propagate -/
+
+/-- Whatever an executor did in its loop, an error of the code after the loop (the writer's final
+flush) ends its stream with that error. -/
+theorem finish_error_propagates {α σ : Type} (onEnd : σ → Except Nat (List α)) (outs : List α) (s : σ) (e : Nat)
+    (h : onEnd s = .error e) : (finish onEnd outs (.ok s)).fin = some e := by
+  simp [finish, h]
+
+/-- `COPY … TO`: if flushing the last buffered part of the output fails, the statement returns that
+error — for any child (any number of chunks, empty included) that itself ends normally and any
+fault-free writes before. -/
+theorem copy_to_flush_error_propagates (id e : Nat) (c : Plan Ck) (hc : c.tr.fin = none) :
+    (Plan.unary none (copyToOp id none (some e)) c).run = .error e := by
+  have hrun : ∀ (cs : List Ck) (s : Nat × Nat), ∃ s', (copyToOp id none (some e)).ph.run none s cs = ([], .ok s') := by
+    intro cs
+    induction cs with
+    | nil => intro s; exact ⟨s, rfl⟩
+    | cons x xs ih =>
+      intro s
+      obtain ⟨s', hs'⟩ := ih (s.1 + 1, s.2 + x.card)
+      have hstep : (copyToOp id none (some e)).ph.run none s (x :: xs) =
+          (copyToOp id none (some e)).ph.run none (s.1 + 1, s.2 + x.card) xs := by
+        simp [Phase.run, copyToOp]
+      exact ⟨s', by rw [hstep, hs']⟩
+  obtain ⟨s', hs'⟩ := hrun c.tr.chunks (0, 0)
+  have hex : (copyToOp id none (some e)).exec c.tr = ⟨[], some e⟩ := by
+    simp only [Op1.exec, hc]
+    have : (copyToOp id none (some e)).init = (0, 0) := rfl
+    rw [this, hs']
+    rfl
+  simp [Plan.run, Plan.tr, applyFault, hex, collect]
+
+example : (Plan.unary none (copyToOp 1 none (some 28)) (src3 none)).run = .error 28 := rfl
+example : (Plan.unary none (copyToOp 1 none none) (src3 none)).run = .ok [⟨1, 6, 1, true⟩] := rfl
+
 /-! ## DML -/
 
 /-- FULL statement: a failed INSERT/DELETE leaves the table unchanged — whatever is armed,
